@@ -409,11 +409,11 @@ pub fn tier_cfg(ctx: &Ctx, client_threads: usize) -> IlvCfg {
         (true, 0..=1) => vec![0, 1, 2, 3],
         (true, 2) => vec![0, 1, 2],
         (true, _) => vec![0, 1],
-        (false, 0..=1) => vec![0, 1, 2, 3, 4, 5],
-        (false, 2) => vec![0, 1, 2, 3, 4],
-        (false, _) => vec![0, 1, 2, 3],
+        (false, 0..=1) => vec![0, 1, 2, 3, 4, 5, 6, 8],
+        (false, 2) => vec![0, 1, 2, 3, 4, 5, 6],
+        (false, _) => vec![0, 1, 2, 3, 4],
     };
-    IlvCfg { bounds, workers: ctx.workers, split_depth: 0, time_cap_s: Some(if quick { 12.0 } else { 900.0 }), max_executions: None }
+    IlvCfg { bounds, workers: ctx.workers, split_depth: 0, time_cap_s: Some(ctx.scenario_cap_s), max_executions: None }
 }
 
 /// Explore one program for each preemption bound in turn (the evidence reports the largest completed).
